@@ -321,17 +321,18 @@ def _transpose_iter_form(p, cfs):
     return full, dep
 
 
-def _batch_closure(p, key):
+def _batch_closures(p, key):
+    """the |batch, batch_offset| closure handed to batch_iter_mut!; the concurrent expansion of the macro pastes the
+    closure expression twice (serial fallback and per-chunk call), so there may be two bodies: all are checked."""
     cs = [c for c in p.closures_of(key) if c.argc == 3 and c.local_ty(3) == "usize"]
-    if len(cs) != 1:
-        raise AnchorLost("%s: batch closure |batch, batch_offset| not found" % key)
-    return p.fn(cs[0].key)      # private helpers called by the closure are spliced
+    if not 1 <= len(cs) <= 2:
+        raise AnchorLost("%s: batch closure |batch, batch_offset| not found (%d candidates)" % (key, len(cs)))
+    return [p.fn(c.key) for c in cs]      # private helpers called by the closure are spliced
 
 
 def r3_batch_offsets(ctx, p=None, cfg=None):
     p = p or ctx.p
-    for nm in ("get_power_series", "get_power_series_with_offset"):
-        cf = _batch_closure(p, MU + nm)
+    for nm, cf in [(nm, cf) for nm in ("get_power_series", "get_power_series_with_offset") for cf in _batch_closures(p, MU + nm)]:
         fp = [(bi, t) for bi, t in cf.calls() if (callee_of(t) or {}).get("name") == "fill_power_series" and not cf.is_cleanup(bi)]
         if len(fp) != 1:
             raise AnchorLost("%s: fill_power_series call not found" % nm)
@@ -353,7 +354,11 @@ def r3_batch_offsets(ctx, p=None, cfg=None):
         ctx.ob("R3", "%s:first-power-from-batch-offset" % nm, ok,
                "the batch is filled starting from base.exp(batch_offset)" if ok else
                "the first power of a batch is not derived from base.exp(batch_offset): batches after the first would repeat the series", cf, t["sp"]["at"])
-    cf = _batch_closure(p, MU + "batch_inversion")
+    for cf in _batch_closures(p, MU + "batch_inversion"):
+        _r3_inversion_window(ctx, cf)
+
+
+def _r3_inversion_window(ctx, cf):
     sb = [(bi, t) for bi, t in cf.calls() if (callee_of(t) or {}).get("name") == "serial_batch_inversion" and not cf.is_cleanup(bi)]
     if len(sb) != 1:
         raise AnchorLost("batch_inversion: serial_batch_inversion call not found")
